@@ -66,49 +66,67 @@ def layer_harnesses() -> List[H]:
         seen.add(h.name)
         out.append(h)
 
-    for lname, (ty, hsz, unw) in LAYERS.items():
+    def stamps(lname, fam, tier, lst, prop, fn, extra_sym=""):
+        ty, hsz, _ = LAYERS[lname]
+        for (l, off, pin) in lst:
+            pn = "" if pin < 0 else f"_b{pin:02x}"
+            ps = "" if pin < 0 else f", version/IHL byte = 0x{pin:02x} (concrete)"
+            add(H(f"{prop.lower()}_{lname}_{fn}_l{l}_o{off}{pn}", prop, tier, f"{fn}::<{ty}, {l}>({off}, {pin})",
+                  f"{lname}_{fn}", f"{l} buffer bytes ({8*l} bits) symbolic, header at offset {off}{ps}{extra_sym}",
+                  unwind_of(lname, l, off)))
+
+    for lname, (ty, hsz, _u) in LAYERS.items():
+        if lname == "ipv4":
+            # IPv4: version/IHL byte enumerated (stamp), everything else symbolic.
+            # quick: IHL 5, 6 (options), 3 (invalid, < 5), 15 in a short buffer (truncated options)
+            dq = [(19, 0, 0x45), (20, 0, 0x45), (24, 0, 0x45), (24, 0, 0x46), (24, 0, 0x43), (24, 0, 0x4F),
+                  (38, 14, 0x45), (20, 0, -1)]
+            dt = [(l, 0, 0x45) for l in _lens_full(20, 0)]
+            dt += [(20 + 4 * (i - 5) + 2, 0, 0x40 + i) for i in range(5, 16)]          # every IHL, options fit
+            dt += [(20 + 4 * (i - 5) - 1, 0, 0x40 + i) for i in range(6, 16)]          # options cut by one byte
+            dt += [(24, 0, 0x40 + i) for i in range(0, 5)] + [(24, 0, 0x65), (64, 0, 0x4F), (78, 14, 0x4F),
+                                                              (37, 18, 0x45), (38, 18, 0x45), (42, 18, 0x46)]
+            stamps(lname, "dec", "quick", dq, "C16", "dec")
+            stamps(lname, "dec", "thorough", dt, "C16", "dec")
+            stamps(lname, "payoff", "quick", [(24, 0, 0x45), (24, 0, 0x46), (24, 0, 0x43)], "C16", "payoff")
+            stamps(lname, "payoff", "thorough", [(64, 0, 0x4F), (44, 14, 0x47), (20, 0, 0x45), (24, 0, 0x65)], "C16", "payoff")
+            sq = [(20, 0, 0x45), (24, 0, 0x45), (24, 0, 0x46), (24, 0, 0x43)]
+            st = [(l, 0, 0x45) for l in range(20, 27)]
+            st += [(20 + 4 * (i - 5) + 2, 0, 0x40 + i) for i in range(5, 16)]
+            st += [(24, 0, 0x40 + i) for i in range(0, 5)] + [(64, 0, 0x4F), (78, 14, 0x4F), (42, 18, 0x46), (24, 0, 0x65)]
+            stamps(lname, "ser", "quick", sq, "C15", "ser", ", 1 symbolic compare index")
+            stamps(lname, "ser", "thorough", st, "C15", "ser", ", 1 symbolic compare index")
+            continue
         # ---------------- C16 decode: field getters + accept/reject + no panic
         quick = [(hsz - 1, 0), (hsz, 0), (hsz + 4, 0), (14 + hsz, 14)]
         thorough = [(l, 0) for l in _lens_full(hsz, 0)]
         for off in (14, 18):
             thorough += [(off - 1, off), (off + hsz - 1, off), (off + hsz, off), (off + hsz + 5, off)]
-        if lname == "ipv4":
-            quick += [(24, 0)]
-            thorough += [(40, 0), (60, 0), (64, 0), (78, 14)]
         if lname == "tcp":
             thorough += [(24, 0), (60, 0), (64, 0)]
-        for tier, lst in (("quick", quick), ("thorough", thorough)):
-            for (l, off) in lst:
-                add(H(f"c16_{lname}_dec_l{l}_o{off}", "C16", tier, f"dec::<{ty}, {l}>({off})",
-                      f"{lname}_dec", f"{l} buffer bytes ({8*l} bits), header at offset {off}", unwind_of(lname, l, off)))
+        stamps(lname, "dec", "quick", [(l, o, -1) for (l, o) in quick], "C16", "dec")
+        stamps(lname, "dec", "thorough", [(l, o, -1) for (l, o) in thorough], "C16", "dec")
         # ---------------- C16 payload offset
         po_q = [(hsz + 4, 0)]
         po_t = [(hsz, 0), (14 + hsz + 8, 14)]
-        if lname in ("ipv4", "tcp"):
+        if lname == "tcp":
             po_q += [(24, 0)]
             po_t += [(64, 0)]
-        for tier, lst in (("quick", po_q), ("thorough", po_t)):
-            for (l, off) in lst:
-                add(H(f"c16_{lname}_payoff_l{l}_o{off}", "C16", tier, f"payoff::<{ty}, {l}>({off})",
-                      f"{lname}_payoff", f"{l} buffer bytes, header at offset {off}", unwind_of(lname, l, off)))
+        stamps(lname, "payoff", "quick", [(l, o, -1) for (l, o) in po_q], "C16", "payoff")
+        stamps(lname, "payoff", "thorough", [(l, o, -1) for (l, o) in po_t], "C16", "payoff")
         # ---------------- C15 SER(X): serialise(parse(raw)) == raw
         s_q = [(hsz, 0), (hsz + 4, 0)]
         s_t = [(l, 0) for l in range(hsz, hsz + 7)] + [(14 + hsz, 14), (14 + hsz + 5, 14), (18 + hsz + 3, 18)]
-        if lname == "ipv4":
-            s_q += [(24, 0)]
-            s_t += [(40, 0), (60, 0), (64, 0), (78, 14)]
         if lname == "tcp":
             s_q += [(24, 0)]
             s_t += [(60, 0), (64, 0)]
-        for tier, lst in (("quick", s_q), ("thorough", s_t)):
-            for (l, off) in lst:
-                add(H(f"c15_{lname}_ser_l{l}_o{off}", "C15", tier, f"ser::<{ty}, {l}>({off})",
-                      f"{lname}_ser", f"{l} buffer bytes, header at offset {off}, 1 symbolic compare index", unwind_of(lname, l, off)))
+        stamps(lname, "ser", "quick", [(l, o, -1) for (l, o) in s_q], "C15", "ser", ", 1 symbolic compare index")
+        stamps(lname, "ser", "thorough", [(l, o, -1) for (l, o) in s_t], "C15", "ser", ", 1 symbolic compare index")
 
     # ---------------- C16 TCP flags: three RFC readings, any-of
     for alt, ty in TCPW.items():
         for tier, (l, off) in (("quick", (20, 0)), ("thorough", (40, 14)), ("thorough", (24, 0))):
-            add(H(f"c16_{alt}_dec_l{l}_o{off}", "C16", tier, f"dec::<{ty}, {l}>({off})",
+            add(H(f"c16_{alt}_dec_l{l}_o{off}", "C16", tier, f"dec::<{ty}, {l}>({off}, -1)",
                   "tcp_flags_dec", f"{l} buffer bytes, header at offset {off}", 14,
                   alt_group="tcp_flags_reading", alt=alt))
     return out
@@ -174,6 +192,13 @@ def setter_harnesses() -> List[H]:
         out.append(H(f"c17_{alt}_set_flags", "C17", "quick", call, "tcp_set_flags",
                      "24 buffer bytes, assigned value any i64, 1 symbolic compare index", 14,
                      alt_group="tcp_flags_reading", alt=alt, timeout=600))
+    return out
+
+
+def compose_harnesses() -> List[H]:
+    """C15 composition through a filled inner cache (two layers; leaf layers udp/tcp have no cache)."""
+    out = []
+    T = {"eth": "Ethernet", "vlan": "Vlan", "ipv4": "Ipv4Packet", "ipv6": "Ipv6Packet", "udp": "Udp", "tcp": "Tcp"}
     return out
 
 
